@@ -140,6 +140,18 @@ impl PublicBatchCircuit {
     }
 }
 
+/// Verification hook: instantiate the public-batch wrapper constraints over
+/// caller-supplied (e.g. free, verifier-less) inner proof targets.
+#[cfg(quantus_network_qp_zk_circuits_verif)]
+pub fn verif_build_public_batch_constraints(
+    builder: &mut CircuitBuilder<F, D>,
+    targets: &PublicBatchCircuitTargets,
+    n_inner: usize,
+    private_batch_num_leaves: usize,
+) {
+    build_public_batch_constraints(builder, targets, n_inner, private_batch_num_leaves)
+}
+
 /// Build the public-batch wrapper constraints and register output public inputs.
 ///
 /// Dummy inner proofs (private-batch proofs over all-dummy leaves, identified by
